@@ -74,7 +74,7 @@ def run_case(case):
                     res["probes"]["base_session_raised"] = 1
                     res["digest"] = digest_of(["base_raised", repr(err)[:80]])
                     return res
-                model += add
+                model += rw.pairs(add)
             before_model = list(model)
             sf = fs.files.get(rw.SIM_PATH)
             before_img = sf.snapshot() if sf is not None else b""
@@ -85,7 +85,7 @@ def run_case(case):
             res["digest"] = digest_of(["rejected", str(e)[:80]])
             return res
     sf = fs.get(rw.SIM_PATH)
-    after_model = before_model + added
+    after_model = before_model + rw.pairs(added)
     ops = write_ops(sf.trace[t0:])
     if case["session"]["mode"] in ("w", "x"):
         before_img = b""
@@ -203,3 +203,11 @@ def shrink_candidates(case):
         c = copy.deepcopy(case)
         c["target"] = "stream"
         yield c
+
+
+def pin(case, sub):
+    import copy
+
+    c = copy.deepcopy(case)
+    c["only"] = [list(sub)]
+    return c
